@@ -34,17 +34,24 @@ class WsDef:
         self.fn_stack = []
         self.inlined = []
         self.cur_line = None
+        self.alias = {}                        # id of a by-reference parameter / local reference -> workspace field it denotes
         self.carrying = set()                  # fields that receive results through out-parameters / accumulation
         self.pending = {}                      # field -> (node, fn) of the latest write nothing has read yet
 
     # ---- helpers ---------------------------------------------------------------------------------------
     def field_of(self, n):
-        """Workspace field named by a (possibly nested) member expression, else None."""
+        """Workspace field named by a (possibly nested) member expression or by a reference bound to one, else None."""
         while isinstance(n, dict) and n.get("k") == "mem":
             if n.get("cls") == self.wsrec:
                 return n["field"]
             n = n.get("base")
+        if isinstance(n, dict) and n.get("k") == "var" and n.get("id") in self.alias:
+            return self.alias[n["id"]]
         return None
+
+    def is_direct(self, n):
+        """the expression denotes the whole field itself (not a sub-member or element)"""
+        return isinstance(n, dict) and ((n.get("k") == "mem" and n.get("cls") == self.wsrec) or (n.get("k") == "var" and n.get("id") in self.alias))
 
     def strip_elem(self, n):
         """(base expression, partial?, index text, accessor arguments)"""
@@ -144,17 +151,17 @@ class WsDef:
                     self.scan(n.get("args", []))
                     self.write(fld, n, not partial, idx, how=nm)
                     return
-            if obj is not None and nm in SIZEQ and self.field_of(obj) is not None and obj.get("cls") == self.wsrec:
+            if obj is not None and nm in SIZEQ and self.field_of(obj) is not None and self.is_direct(obj):
                 return
             if nm == "fill" and c.get("ns") == "std" and len(n.get("args", [])) == 3:
                 a, b = n["args"][0], n["args"][1]
                 fa = a.get("k") == "call" and a.get("callee", {}).get("name") == "begin" and self.field_of(a.get("obj"))
                 fb = b.get("k") == "call" and b.get("callee", {}).get("name") == "end" and self.field_of(b.get("obj"))
-                if fa and fa == fb and a["obj"].get("cls") == self.wsrec:
+                if fa and fa == fb and self.is_direct(a["obj"]):
                     self.scan(n["args"][2])
                     self.write(fa, n, True, how="std::fill")
                     return
-            if obj is not None and nm == "update" and c.get("cls") == self.spline_cls and self.field_of(obj) is not None and obj.get("cls") == self.wsrec:
+            if obj is not None and nm == "update" and c.get("cls") == self.spline_cls and self.field_of(obj) is not None and self.is_direct(obj):
                 self.scan(n.get("args", []))
                 self.write(self.field_of(obj), n, True, how="update")
                 return
@@ -162,7 +169,7 @@ class WsDef:
                 pm = c.get("pm", [])
                 outs = []
                 for i, a in enumerate(n.get("args", [])):
-                    fld = self.field_of(a) if isinstance(a, dict) and a.get("k") == "mem" and a.get("cls") == self.wsrec else None
+                    fld = self.field_of(a) if self.is_direct(a) else None
                     if fld is not None and i < len(pm) and pm[i] == "ref":
                         outs.append(fld)
                     else:
@@ -177,10 +184,10 @@ class WsDef:
             self.scan(n.get("args", []))
             pm = c.get("pm", [])
             for i, a in enumerate(n.get("args", [])):
-                if isinstance(a, dict) and a.get("k") == "mem" and a.get("cls") == self.wsrec and i < len(pm) and pm[i] == "ref":
+                if self.is_direct(a) and i < len(pm) and pm[i] == "ref":
                     # handed to a callee (cost functor, accumulating helper) as a mutable out-parameter: it comes back modified
-                    self.write(a["field"], n, False, how="out-parameter")
-                    self.mentions[a["field"]] -= 1
+                    self.write(self.field_of(a), n, False, how="out-parameter")
+                    self.mentions[self.field_of(a)] -= 1
             fid = c.get("fid")
             if fid is not None and c.get("repo"):
                 g = self.F.by_fid.get(fid) if hasattr(self.F, "by_fid") else None
@@ -198,6 +205,9 @@ class WsDef:
             if fld is not None:
                 self.read(fld, n)
                 return
+        if k == "var" and n.get("id") in self.alias:
+            self.read(self.alias[n["id"]], n)
+            return
         base, partial, idx, iargs = (n, False, None, [])
         if k == "subscript":
             base, partial, idx, iargs = self.strip_elem(n)
@@ -313,10 +323,18 @@ class WsDef:
             c = e.get("callee", {}) if isinstance(e, dict) and e.get("k") == "call" else {}
             g = self.F.by_fid.get(c.get("fid")) if c.get("repo") and c.get("fid") is not None else None
             if g is not None and g.get("cls") == self.cls and g.get("kind") == "method" and g.get("body") and c.get("fid") not in self.inlined and any(
-                    (a.get("t") or {}).get("n") == self.wsrec for a in e.get("args", []) if isinstance(a, dict)):
-                # statement-level call that hands the workspace on: continue the flow inside the callee
+                    ((a.get("t") or {}).get("n") == self.wsrec) or self.is_direct(a) for a in e.get("args", []) if isinstance(a, dict)):
+                # statement-level call that hands the workspace (or some of its buffers, by reference) on: continue the
+                # flow inside the callee, its reference parameters standing for the buffers
                 self.scan(e.get("obj"))
-                self.scan(e.get("args", []))
+                pm = c.get("pm", [])
+                bound = []
+                for i, a in enumerate(e.get("args", [])):
+                    if self.is_direct(a) and i < len(pm) and pm[i] in ("ref", "cref") and i < len(g["params"]):
+                        self.alias[g["params"][i]["id"]] = self.field_of(a)
+                        bound.append(g["params"][i]["id"])
+                    else:
+                        self.scan(a)
                 self.inlined.append(c["fid"])
                 self.fn_stack.append(g)
                 self.stmts(g["body"].get("body", []))
@@ -393,7 +411,7 @@ class WsDef:
                 if l is not None:
                     base, partial, idx, iargs = self.strip_elem(l)
                     fld = self.field_of(base)
-                    if fld is not None and partial and base.get("cls") == self.wsrec and len(iargs) == 1 and iargs[0].get("k") == "var" and iargs[0].get("id") == var \
+                    if fld is not None and partial and self.is_direct(base) and len(iargs) == 1 and iargs[0].get("k") == "var" and iargs[0].get("id") == var \
                             and fld not in seen and fld not in self.fields_in(r) and norm_size(bound) == norm_size(self.sizes.get(fld, "?")):
                         out.append((fld, st))
             seen |= self.fields_in(st)
@@ -405,4 +423,6 @@ class WsDef:
         for x in walk(n):
             if x.get("k") == "mem" and x.get("cls") == self.wsrec:
                 out.add(x["field"])
+            elif x.get("k") == "var" and x.get("id") in self.alias:
+                out.add(self.alias[x["id"]])
         return out
